@@ -1,7 +1,7 @@
 #!/bin/sh
 # usage: tools/seed_sweep.sh <tier> <seed>...   — runs every registered check on the (unchanged) tree with each seed
 T="$1"; shift
-cd /verif
+cd "$(dirname "$0")/.." || exit 9
 for S in "$@"; do
   for P in $(python3 -c "import json;print(' '.join(c['property_id'] for c in json.load(open('MANIFEST.json'))['checks']))"); do
     out=$(VERIF_SEED=$S ./check $P $T 2>&1); rc=$?
